@@ -15,9 +15,9 @@ ffi.dlclose is executed on the library object and on the model and compared
 after the first dlclose every read or write of a global and every fetch of a
 function not fetched before raises; every further dlclose returns normally.
 
-Most sequences run with the library *pinned* by a second handle (ctypes), so an
-implementation that forgets a check reads valid memory and returns a value
-instead of crashing the check; a smaller number runs unpinned (the library is
+Most sequences run with the library *pinned* by a second, RTLD_GLOBAL handle
+(ctypes), so an implementation that forgets a check finds the symbol / reads
+valid memory and returns a value instead of raising or crashing the check; a smaller number runs unpinned (the library is
 really unmapped by dlclose) in a forked child, where dying from a signal after
 the close is the failure "touched the unloaded library".
 Functions fetched before the close are never called after it.
@@ -105,7 +105,9 @@ class World:
             c = os.path.join(ctx.scratch, "c37_lib.c")
             with open(c, "w") as f:
                 f.write(LIB_C)
-            common.compile_shared(c, self.src_so)
+            # -Bsymbolic: the library's own functions refer to its own globals even when another copy of the
+            # library is globally visible in the process (no symbol interposition between the copies)
+            common.compile_shared(c, self.src_so, extra=["-Wl,-Bsymbolic"])
         self.inline_ffi = cffi.FFI()
         self.inline_ffi.cdef(CDEF)
         modname = "_c37_mod_%d" % os.getpid()
@@ -159,7 +161,10 @@ def run_sequence(world, mode, ops, pinned, progress=None):
     [canonical result, exception type name or None, extra]."""
     ffi = world.ffi(mode)
     path = world.fresh_copy()
-    pin = ctypes.CDLL(path) if pinned else None
+    # pinned with RTLD_GLOBAL: the same library is also loaded (and globally visible) through another handle, as when
+    # something else in the process links it; a closed library object must refuse access all the same, and an
+    # implementation that forgot the closed check would find the symbols (dlsym(NULL, ...) searches the global scope)
+    pin = ctypes.CDLL(path, mode=ctypes.RTLD_GLOBAL) if pinned else None
     lib = ffi.dlopen(path)
     closed = False
     fetched = {}              # function objects fetched while open (never called after the close)
@@ -208,6 +213,10 @@ def run_sequence(world, mode, ops, pinned, progress=None):
             obs.append([res, exc, extra])
     finally:
         fetched.clear()
+        try:
+            ffi.dlclose(lib)          # do not leave copies loaded (in-line FFI objects keep their library objects alive)
+        except Exception:
+            pass
         del lib
         if pin is not None:
             import _ctypes
